@@ -1,0 +1,53 @@
+//go:build verif
+
+package decoder
+
+import (
+	"fmt"
+	"sync"
+	"unsafe"
+)
+
+// The slice decoder keeps working arrays in a pool, each behind a header that records the array's
+// capacity. A header that claims more elements than its array has makes a later decode store past the
+// array. The verification build records the size of every working array when it is made and checks
+// every header that goes back to the pool.
+
+var (
+	verifArrays   sync.Map // address of a working array -> number of elements it was made with
+	verifPoolMu   sync.Mutex
+	verifPoolErrs []string
+)
+
+func verifTrackArray(p unsafe.Pointer, n int) {
+	verifArrays.Store(uintptr(p), n)
+}
+
+func verifCheckSliceHeader(h *sliceHeader) {
+	made, ok := verifArrays.Load(uintptr(h.data))
+	msg := ""
+	switch {
+	case !ok:
+		msg = fmt.Sprintf("pooled header with an array the slice decoder did not make (len %d cap %d)", h.len, h.cap)
+	case h.cap > made.(int):
+		msg = fmt.Sprintf("pooled header claims cap %d for an array of %d elements", h.cap, made.(int))
+	case h.len > h.cap || h.len < 0:
+		msg = fmt.Sprintf("pooled header with len %d cap %d", h.len, h.cap)
+	}
+	if msg != "" {
+		verifPoolMu.Lock()
+		if len(verifPoolErrs) < 20 {
+			verifPoolErrs = append(verifPoolErrs, msg)
+		}
+		verifPoolMu.Unlock()
+	}
+}
+
+// VerifPoolErrors returns and clears the violations of the pool invariant seen so far.
+func VerifPoolErrors() []string {
+	verifPoolMu.Lock()
+	defer verifPoolMu.Unlock()
+	out := verifPoolErrs
+	verifPoolErrs = nil
+	return out
+}
